@@ -153,6 +153,7 @@ type FnCtx struct {
 	localAllocs map[string][]*ssa.Alloc
 	closureOf   map[string]*ssa.MakeClosure // cell name -> single MakeClosure stored
 	storeOrd    map[*ssa.Store]int
+	syncSites   []*ssa.Go
 	bounded     int                         // >0: unroll loops this many times instead of cutting (refutation only)
 }
 
